@@ -454,6 +454,8 @@ def formula(n, atomize):
         v = s.prog.vars[s.decl_id]
         if v.get('kind') == 'local' and (s.prog.base_type(v.get('ty')) or {}).get('bool'):
             d = unique_def(s.fn, s.decl_id)
+            if d is not None and d.strip_all().cv is None and snapshot_stale(s.fn, s.decl_id, s) is not None:
+                return f_atom(('stale', s.decl_id))
             if d is not None and d.strip_all().cv is None:
                 _BOOL_STACK.append(s.decl_id)
                 try:
@@ -984,3 +986,37 @@ def flow_after(cfg, start_node, stop):
         b = work.pop()
         scan(b, 0)
     return out
+
+
+def snapshot_stale(fn, var_id, use):
+    """is the single definition of the local `var_id` a snapshot that is out of date at `use`: something its defining expression
+    reads is written on a path from the definition to the use (that does not re-execute the definition)?  Returns the
+    writing node or None"""
+    cfg = fn.cfg
+    decls = [n for n in fn.walk() if n.k == 'VarDecl' and n.decl_id == var_id and n.c]
+    if cfg is None or len(decls) != 1:
+        return None
+    decl = decls[0]
+    start = decl.parent if decl.parent is not None and decl.parent.k == 'DeclStmt' and decl.parent.i in cfg.positions() else decl
+
+    def is_decl(x):
+        return x is decl or x is start
+    after = None
+    for vid in vars_in(decl.c[0]):
+        vi = fn.prog.vars[vid] if vid < len(fn.prog.vars) else {}
+        if vi.get('kind') not in ('local', 'param') or vid == var_id:
+            continue
+        for (an, _r) in assignments_to(fn, vid):
+            if an.k == 'VarDecl':
+                continue
+            if after is None:
+                after = set(x.i for x in flow_after(cfg, start, is_decl))
+            probe = an
+            if probe.i not in after:
+                # the write may not be a CFG element itself: look at its first evaluated descendant
+                if not any(d.i in after for d in an.walk()):
+                    continue
+            later = flow_after(cfg, an, is_decl)
+            if any(x is use or x.i == use.i for x in later) or any(x.i == use.i for l_ in later for x in ()):
+                return an
+    return None
